@@ -465,6 +465,10 @@ BOUNDED = {
                  obligation="frontend/bounded-standin/condlist.conditional_type",
                  known_cases="contracts/known_condlist_cases.txt",
                  what="tuple assignability at SOURCE level: `type X = A extends B | C ? 1 : 2` for tuple types with a prefix up to length 2 over {string, number, string | number} and an optional rest (52 shapes; every 7th of the 140608 triples in the quick tier, all of them in the thorough tier), against brute force over all lists of length <= 4"),
+            dict(family="front", args_quick=["--condobj", "5"], args_thorough=["--condobj", "1"],
+                 obligation="frontend/bounded-standin/condobj.conditional_type",
+                 known_cases="contracts/known_condobj_cases.txt",
+                 what="object assignability at SOURCE level: `type X = A extends B | C ? 1 : 2` for object types with the properties a, b each absent / required / optional of string or number and an optional string-keyed index signature (43 TypeScript-valid shapes; every 5th of the 79507 triples in the quick tier, all in the thorough tier), against brute force over the 27 objects with keys a, b, c: exact reading on the left, structural on the right"),
             dict(family="listneg", obligation="list_shape/bounded-standin/listneg.list_is_empty",
                  known_cases="contracts/known_listneg_cases.txt",
                  what="list_is_empty / list_inhabited (assumed decider of C05): `a <: b | c` for tuple shapes with prefix <= 2 over {string, number} and an optional rest in {string, number}, against brute force over all lists of length <= 4 over three basic values"),
